@@ -50,11 +50,13 @@ impl Check for C13C {
             chardata_extra: 0,
             chardata_full: true,
             attach_only: false,
+                attr_names: &[],
             },
             monitors: Monitors { tree: false, spec: true, order: false, chardata: false, serial: false },
             frontier,
             expand: stage != format!("bfs{}", depth - 1),
             order_queries: &[],
+            warm_queries: &[],
         })
     }
     fn meta(&self) -> Meta {
